@@ -6,6 +6,7 @@ import GdcVerif.Lemmas.J2kResDims
 import GdcVerif.Lemmas.J2kTagTree
 import GdcVerif.Lemmas.J2kBio
 import GdcVerif.Lemmas.J2kBandState
+import GdcVerif.Lemmas.J2kPacketHeader
 /-!
   C04 — JPEG 2000 reversible path, single tile: exact reconstruction for every configuration.
 
@@ -116,6 +117,83 @@ theorem codeblocks_partition_subband (bw bh cbw cbh : Int) (hbw : 1 ≤ bw) (hbh
     · symm; apply ediv_unique (by omega) h3; split at h4 <;> omega
 
 example : encCbRect 37 5 16 4 2 1 = (32, 4, 37, 5) ∧ numCb 37 16 = 3 ∧ numCb 5 4 = 2 := by decide
+
+/-- precinct partition, LIVE code: the encoder (buildTilePacketEncoder, inline since 104b234) and the decoder
+    (buildResolutionPrecinctOrder) count the same number of precinct columns — and, the code being the same in y,
+    rows — for every canvas origin, resolution extent and precinct size; with `codeblock_index_agreement` (C19)
+    every code-block lands in the same precinct with the same grid index on both sides -/
+theorem precinct_count_agreement (x0 resW pw : Int) (h0 : 0 ≤ x0) (hw : 0 ≤ resW) (hpw : 1 ≤ pw) :
+    encNumPrecinct x0 resW pw = decNumPrecinct x0 resW pw := numPrecinct_agree x0 resW pw h0 hw hpw
+
+example : encNumPrecinct 0 17 16 = 2 ∧ decNumPrecinct 0 17 16 = 2 ∧ encNumPrecinct 5 12 8 = 3 ∧ decNumPrecinct 40 1 32768 = 1 := by
+  decide
+
+/-- precinct partition, GENERATED kernels Encoder.getResolutionDimensions / getPrecinctSize / calculatePrecinctIndex
+    (no caller on the current tree — kept under proof so that an edit shows): for every image size ≥ 1, level count,
+    resolution 0..levels and precinct configuration, the resolution extents are the decoder's (origin 0:
+    ⌈W/2^(L−r)⌉ × ⌈H/2^(L−r)⌉), hence the number of precinct columns and rows are the decoder's, and the precinct
+    index is `row·columns + column` with the decoder's column count -/
+theorem precinct_grid_agreement_generated (e : Encoder) (r : Int)
+    (hW : 1 ≤ e.params.Width) (hH : 1 ≤ e.params.Height) (hr0 : 0 ≤ r) (hr : r ≤ e.params.NumLevels) :
+    let n := (e.params.NumLevels - r).toNat
+    let dims := Encoder.getResolutionDimensions e r
+    let ps := Encoder.getPrecinctSize e r
+    dims.1 = (resDimsT2 e.params.Width 0 n).1 ∧ dims.2 = (resDimsT2 e.params.Height 0 n).1 ∧
+    1 ≤ ps.1 ∧ 1 ≤ ps.2 ∧
+    Int.tdiv (dims.1 + ps.1 - 1) ps.1 = decNumPrecinct 0 (resDimsT2 e.params.Width 0 n).1 ps.1 ∧
+    Int.tdiv (dims.2 + ps.2 - 1) ps.2 = decNumPrecinct 0 (resDimsT2 e.params.Height 0 n).1 ps.2 ∧
+    ∀ cbX0 cbY0, Encoder.calculatePrecinctIndex e cbX0 cbY0 r =
+      Int.tdiv cbY0 ps.2 * decNumPrecinct 0 (resDimsT2 e.params.Width 0 n).1 ps.1 + Int.tdiv cbX0 ps.1 := by
+  intro n dims ps
+  have hn : ((n : Nat) : Int) = e.params.NumLevels - r := by
+    show (((e.params.NumLevels - r).toNat : Nat) : Int) = _; omega
+  have hcd : ∀ len : Int, 1 ≤ len → ceilDivPow2 len (e.params.NumLevels - r) = (resDimsT2 len 0 n).1 ∧
+      1 ≤ ceilDivPow2 len (e.params.NumLevels - r) := by
+    intro len hl
+    have h1 := aligned_agree len 0 n (by omega) (by simp)
+    unfold encLowLenOld at h1
+    rw [hn] at h1
+    refine ⟨by rw [resDimsT2_eq]; exact h1.symm, ?_⟩
+    rw [← hn, ceilDivPow2_eq len n (by omega)]
+    have hp : (0 : Int) < 2 ^ n := Int.pow_pos (by decide)
+    have := numTiles_pos hp hl; omega
+  obtain ⟨hw1, hw2⟩ := hcd e.params.Width hW
+  obtain ⟨hh1, hh2⟩ := hcd e.params.Height hH
+  have hd : dims = (ceilDivPow2 e.params.Width (e.params.NumLevels - r), ceilDivPow2 e.params.Height (e.params.NumLevels - r)) := by
+    show Encoder.getResolutionDimensions e r = _
+    unfold Encoder.getResolutionDimensions
+    have c1 : ¬ (e.params.NumLevels - r < 0) := by omega
+    have c2 : ¬ (ceilDivPow2 e.params.Width (e.params.NumLevels - r) < 1) := by omega
+    have c3 : ¬ (ceilDivPow2 e.params.Height (e.params.NumLevels - r) < 1) := by omega
+    simp only [c1, c2, c3, decide_false, Bool.false_eq_true, if_false]
+  have hps : ps = (2 ^ (Encoder.getPrecinctSizeExponents e r).1.toNat, 2 ^ (Encoder.getPrecinctSizeExponents e r).2.toNat) := by
+    show Encoder.getPrecinctSize e r = _
+    unfold Encoder.getPrecinctSize Go.shl
+    simp
+  have hp1 : 1 ≤ ps.1 := by rw [hps]; exact Int.pow_pos (by decide)
+  have hp2 : 1 ≤ ps.2 := by rw [hps]; exact Int.pow_pos (by decide)
+  have hcx : Int.tdiv (dims.1 + ps.1 - 1) ps.1 = decNumPrecinct 0 (resDimsT2 e.params.Width 0 n).1 ps.1 := by
+    rw [hd]; simp only []
+    rw [hw1, decNumPrecinct_zero _ _ (by rw [← hw1]; exact hw2) hp1]
+    exact tdiv_eq_ediv (by rw [← hw1]; omega)
+  have hcy : Int.tdiv (dims.2 + ps.2 - 1) ps.2 = decNumPrecinct 0 (resDimsT2 e.params.Height 0 n).1 ps.2 := by
+    rw [hd]; simp only []
+    rw [hh1, decNumPrecinct_zero _ _ (by rw [← hh1]; exact hh2) hp2]
+    exact tdiv_eq_ediv (by rw [← hh1]; omega)
+  refine ⟨by rw [hd]; exact hw1, by rw [hd]; exact hh1, hp1, hp2, hcx, hcy, ?_⟩
+  intro cbX0 cbY0
+  unfold Encoder.calculatePrecinctIndex
+  show Int.tdiv cbY0 ps.2 * Int.tdiv (dims.1 + ps.1 - 1) ps.1 + Int.tdiv cbX0 ps.1 = _
+  rw [hcx]
+
+/-- the sizes of the seeded case: 33×33, 1 level, 32×32 precincts: resolution 1 is 33 wide → 2 precinct columns
+    (a floor shift would still give 33 here; at resolution 0 it is ⌈33/2⌉ = 17 with 16-wide precincts → 2 columns,
+    where a floor shift gives 16 → 1 column) -/
+example :
+    let e : Encoder := { (encOf 33 33) with params := { (encOf 33 33).params with NumLevels := 1, PrecinctWidth := 32, PrecinctHeight := 32 } }
+    Encoder.getResolutionDimensions e 0 = (17, 17) ∧ Encoder.getPrecinctSize e 0 = (16, 16) ∧
+    Encoder.calculatePrecinctIndex e 16 16 0 = 3 ∧ Encoder.getPrecinctSize e 1 = (32, 32) ∧
+    Encoder.calculatePrecinctIndex e 32 32 1 = 3 := by decide
 
 /-- pass-count code: every count 1..164 decodes to itself and consumes exactly its code word -/
 theorem numPasses_roundtrip (n : Nat) (h1 : 1 ≤ n) (h2 : n ≤ 164) (rest : List Bool) :
@@ -313,3 +391,67 @@ example :
       (fun b => if b == 2 then some 10 else if b == 3 then some 20 else none)) 2 = some 21 := by decide
 
 end J2kBand
+/-! ## One packet header: encodePacketHeaderWithTagTreeMulti against parsePacketHeaderMulti -/
+namespace J2kPH
+open J2k J2kTT
+
+/-- `packet_header_roundtrip`: for ONE packet of a precinct (any number of bands, any grid, any layer < 998), from
+    any pair of encoder/decoder states in lock step (`BandsInv`: what the previous packets of the precinct leave
+    behind — first inclusion pending for some code-blocks, Lblock counters and tag-tree state for the others), and
+    any admissible contributions (per code-block: not included, or 1..164 passes and < 2^24 bytes in one codeword
+    segment; fewer than 32 missing bit planes): the decoder, fed the encoder's header bits followed by anything,
+    (a) consumes exactly the header, (b) reports for every band and code-block exactly what was encoded —
+    inclusion, number of passes, data length, and the zero-bit-plane count (on first inclusion from the tag tree,
+    later from its state) — or "empty packet" when no band has a code-block, (c) ends in lock step for the next
+    layer, and (d) the header has at least one bit, so `bio_roundtrip` carries it over the byte level:
+    written by bioWriter, flushed, read back by bioReader, aligned — the reader stands at the packet body. -/
+theorem packet_header_roundtrip (layer : Nat) (hlayer : layer + 1 ≤ sentinel) (bes : List BandE) (bds : List BandD)
+    (css : List (List Contrib)) (rest : List Bool) (body : List Nat)
+    (hinv : BandsInv layer bes bds) (hok : CsOk bes css) :
+    (∃ bds', decHeader layer bds ((encHeader layer bes css).2 ++ rest) =
+        some (bds', (if bes.all (fun b => b.cbs.isEmpty) then none else some (expBands bes css)), rest) ∧
+      BandsInv (layer + 1) (encHeader layer bes css).1 bds') ∧
+    headerRoundTrip BioR.alignToByte (encHeader layer bes css).2 body = some ((encHeader layer bes css).2, body) := by
+  obtain ⟨bds', hd, hinv', hne⟩ := header_sync layer hlayer bes bds css rest hinv hok
+  exact ⟨⟨bds', hd, hinv'⟩, bio_roundtrip _ body hne⟩
+
+/-- the state threading over layers: starting from fresh states (PacketEncoder.ResetState; a decoder that has not
+    seen the precinct) — which are in lock step for every grid with distinct positions and < 32 missing bit planes —
+    every packet of the precinct, layer after layer (first inclusion in whatever layer, later contributions, layers
+    without contribution), is decoded to what was encoded, whatever follows each header -/
+theorem packet_headers_roundtrip_layers (spec : List (Nat × Nat × List (Nat × Nat × Nat)))
+    (hspec : ∀ b ∈ spec, (b.2.2.map fun c => (c.1, c.2.1)).Nodup ∧ ∀ c ∈ b.2.2, c.2.2 < 32)
+    (lss : List (List (List Contrib))) (tail : List Bool)
+    (hok : ∀ css ∈ lss, CsOk (spec.map fun b => BandE.fresh b.1 b.2.1 b.2.2) css) (hlen : lss.length ≤ sentinel) :
+    decLayers tail 0 (spec.map fun b => BandD.fresh b.1 b.2.1 b.2.2)
+      (encLayers 0 (spec.map fun b => BandE.fresh b.1 b.2.1 b.2.2) lss) =
+      some (expLayers 0 (spec.map fun b => BandE.fresh b.1 b.2.1 b.2.2) lss) := by
+  have hfresh : ∀ (sp : List (Nat × Nat × List (Nat × Nat × Nat))),
+      (∀ b ∈ sp, (b.2.2.map fun c => (c.1, c.2.1)).Nodup ∧ ∀ c ∈ b.2.2, c.2.2 < 32) →
+      BandsInv 0 (sp.map fun b => BandE.fresh b.1 b.2.1 b.2.2) (sp.map fun b => BandD.fresh b.1 b.2.1 b.2.2) := by
+    intro sp
+    induction sp with
+    | nil => intro _; trivial
+    | cons b bs ih =>
+      intro hs
+      exact ⟨bandInv_fresh b.1 b.2.1 b.2.2 (hs b (by simp)).1 (hs b (by simp)).2, ih (fun b' hb' => hs b' (by simp [hb']))⟩
+  exact layers_sync tail lss 0 _ _ (hfresh spec hspec) hok (by omega)
+
+/-- non-vacuity: a resolution with three bands (HL 2×1 grid, LH empty, HH 1×1), three layers: first inclusions in
+    layers 0, 1 and 2, a later contribution, a layer without contribution -/
+example :
+    let spec : List (Nat × Nat × List (Nat × Nat × Nat)) := [(2, 1, [(0, 0, 3), (1, 0, 1)]), (1, 1, []), (1, 1, [(0, 0, 7)])]
+    let lss : List (List (List Contrib)) :=
+      [[[some (4, 20), none], [], [none]], [[none, some (7, 300)], [], [none]], [[some (1, 5), some (1, 2)], [], [some (37, 70000)]]]
+    (∀ css ∈ lss, CsOk (spec.map fun b => BandE.fresh b.1 b.2.1 b.2.2) css) ∧
+    decLayers [true, false] 0 (spec.map fun b => BandD.fresh b.1 b.2.1 b.2.2)
+      (encLayers 0 (spec.map fun b => BandE.fresh b.1 b.2.1 b.2.2) lss) =
+      some [some [[⟨true, 4, 20, 3⟩, ⟨false, 0, 0, 0⟩], [], [⟨false, 0, 0, 0⟩]],
+            some [[⟨false, 0, 0, 0⟩, ⟨true, 7, 300, 1⟩], [], [⟨false, 0, 0, 0⟩]],
+            some [[⟨true, 1, 5, 3⟩, ⟨true, 1, 2, 1⟩], [], [⟨true, 37, 70000, 7⟩]]] := by
+  refine ⟨?_, by decide⟩
+  intro css hcss
+  simp only [List.mem_cons, List.not_mem_nil, or_false] at hcss
+  rcases hcss with rfl | rfl | rfl <;> (simp [CsOk, COk, BandE.fresh]; try omega)
+
+end J2kPH
